@@ -10,6 +10,9 @@ Decided on every CFG path of every push form (try_push x2, try_emplace, try_push
                  that frees the slot follows on every path; head_ is stored nowhere else.
   C35.dtor       the destructor destroys the elements still in [head, tail): a loop that destroys
                  while head != tail (the cursors wrap: an ordering comparison is wrong).
+  C35.batch-count the element count of try_pop_batch and the free space of try_push_batch, evaluated for
+                 every cursor pair of every instantiated slot count S (including non powers of two),
+                 equal (tail - head) mod S and S - 1 - that.
 """
 import re
 from lib import dataflow
@@ -18,7 +21,7 @@ from lib.rules import atomic_ops, natural_loops
 
 LEVEL = "other"
 EXPLANATION = __doc__
-NOT_DECIDED = ["FIFO order", "capacity arithmetic", "use by more than one producer or consumer (outside the contract)"]
+NOT_DECIDED = ["FIFO order", "capacity arithmetic other than the batch counts", "use by more than one producer or consumer (outside the contract)"]
 CLS = "dispenso::SPSCRingBuffer"
 HEAD, TAIL = CLS + "::head_", CLS + "::tail_"
 PUSH = ("try_push", "try_emplace", "try_push_batch")
@@ -125,3 +128,77 @@ def run(R):
             R.ob("C35.dtor", fn, de, ok2, "drain continues while head != tail" if ok2 else "drain continues while head %s tail: the cursors wrap, so leftover elements are skipped when the tail index is behind the head index" % cmps[0][0],
                  sitekey="dtor:range", why="every element is destroyed exactly once")
     R.need("C35", n, 9, "SPSC slot access sites")
+    batch_count(R)
+
+
+def _derived(F, fn, x, field, depth=3):
+    from lib.rules import local_defs, field_name, lvalue_path
+    x = strip_casts(x)
+    if not isinstance(x, dict) or depth <= 0:
+        return False
+    if x.get("k") == "call" and "atomic" in x and (field_name(lvalue_path(F, fn, x.get("obj"))) or "") == field:
+        return True
+    if x.get("k") == "var":
+        return any(d[2] == "decl" and _derived(F, fn, d[1], field, depth - 1) for d in local_defs(fn, x.get("vid")))
+    return False
+
+
+def batch_count(R):
+    """C35.batch-count: the number of elements a batch pop may take / a batch push may add is computed
+    from the two cursors. For every instantiated buffer size S (power of two or not) and every pair
+    of cursor values, the expression assigned on the branch that applies is evaluated and compared
+    with the number of elements (t - h) mod S, resp. the free space S - 1 - that."""
+    from lib.rules import eval_int
+    F = R.F
+    n = 0
+    sizes = set()
+    for nm, want in (("try_pop_batch", lambda S, h, t: (t - h) % S), ("try_push_batch", lambda S, h, t: S - 1 - ((t - h) % S))):
+        for fn in F.functions(qname=CLS + "::" + nm):
+            m = re.search(r"SPSCRingBuffer<.*,\s*(\d+)\s*,\s*(true|false)\s*>$", fn.raw.get("clsinst", "") or "")
+            if not m:
+                continue
+            cap, rnd = int(m.group(1)), m.group(2) == "true"
+            S = cap + 1
+            if rnd:
+                p2 = 1
+                while p2 < S:
+                    p2 *= 2
+                S = p2
+            sizes.add(S)
+            # assignments of a plain local whose guard compares the two cursors
+            defs = []
+            for p, e in fn.events():
+                if e.get("k") == "bin" and e.get("op") == "=" and isinstance(strip_casts(e.get("l")), dict) and strip_casts(e.get("l")).get("k") == "var":
+                    gs = [(a, pol) for a, pol, _ in fn.guard_atoms(p) if isinstance(strip_casts(a), dict) and strip_casts(a).get("k") == "bin" and
+                          any(_derived(F, fn, x, HEAD) for x in (strip_casts(a).get("l"), strip_casts(a).get("r"))) and any(_derived(F, fn, x, TAIL) for x in (strip_casts(a).get("l"), strip_casts(a).get("r")))]
+                    if gs:
+                        defs.append((p, e, gs))
+            if not defs:
+                continue
+            n += 1
+            bad, unknown = None, False
+            for h in range(S):
+                for t in range(S):
+                    leaf = lambda x, h=h, t=t: (h if _derived(F, fn, x, HEAD) else (t if _derived(F, fn, x, TAIL) else None)) if x.get("k") in ("var", "call") else None
+                    applicable = []
+                    for p, e, gs in defs:
+                        vals = [eval_int(fn, a, leaf) for a, pol in gs]
+                        if any(v is None for v in vals):
+                            unknown = True
+                            continue
+                        if all(bool(v) == pol for v, (a, pol) in zip(vals, gs)):
+                            applicable.append(e)
+                    for e in applicable:
+                        v = eval_int(fn, e.get("r"), leaf)
+                        if v is None:
+                            unknown = True
+                        elif v % (1 << 64) != want(S, h, t) and bad is None:
+                            bad = (h, t, v % (1 << 64), want(S, h, t), expr_str(e.get("r")))
+            if unknown and bad is None:
+                R.inconclusive("C35.batch-count", "cannot evaluate the element count of %s (S = %d)" % (nm, S))
+                continue
+            R.ob("C35.batch-count", fn, defs[0][1], bad is None, "%s: count = %s for all %d cursor pairs of a %d-slot buffer" % (nm, "(tail - head) mod S" if nm == "try_pop_batch" else "S - 1 - (tail - head) mod S", S * S, S) if bad is None else
+                 "%s: with head = %d, tail = %d in a %d-slot buffer `%s` gives %d, but %d element(s) %s" % (nm, bad[0], bad[1], S, bad[4], bad[2], bad[3], "are present" if nm == "try_pop_batch" else "fit"),
+                 sitekey="%s:S=%d" % (nm, S), why="a batch pop must not take slots that hold no element, a batch push must not overwrite unconsumed ones")
+    R.need("C35.batch-count", n, 4, "batch count computations")
+    R.need("C35.batch-count", sum(1 for S in sizes if S & (S - 1)), 1, "instantiations with a non-power-of-two slot count")
